@@ -30,6 +30,7 @@ EXPLANATION = (
     "(D2p) per-qubit phases read from COEFF_MAP inside a loop are multiplied into the running coefficient, never assigned over it."
     " Round 4: no last-wins mapping built by a constructor from an operand's terms in PauliSum.__add__."
     ' Round 5: (D8) no functools cache keyed by an operator (tolerant ==, rounded hash); arithmetic methods do not branch on the truth value of their operator operand; __hash__ sees the coefficient only through round(...) while __eq__ is tolerant; is_constant looks at the factors only.'
+    " Round 6: every term reaches its group before anything is compared with 0 -- no skip or filter on a term's own coefficient (D5); exits are keyed by content so the two views cannot pair different exits."
 )
 RULE_TEXT = "instances = 6 ordered operator pairs x {operator, phase}, 3 key-collision checks, multiplication dataflow obligations, (class, dunder, return path) linear forms, 65 exponents, simplify obligations, equality/tolerance sites, purity per (method, parameter)"
 ASSUMPTIONS = [
